@@ -131,94 +131,139 @@ func c37Less(a, b netip.AddrPort, prefs []netip.Prefix, refine bool) bool {
 	return a.Port() < b.Port()
 }
 
-// ---- reference model ----
+// ---- alphabet indices and precomputed ranks (computed once with c37Less; keeps the hot path allocation-free) ----
+
+var (
+	c37Index      = map[netip.AddrPort]int{}
+	c37RelayIndex = map[netip.Addr]int{}
+	c37RankStrong [][]int // [pref][addr index] -> position in the stated order (preferred group refined)
+	c37RankPlain  [][]int // [pref][addr index] -> position when the preferred group is ordered by address, port only
+	c37ClassOf    [][]int
+)
+
+func init() {
+	for i, a := range c37Addrs {
+		c37Index[a] = i
+	}
+	for i, r := range c37Relays {
+		c37RelayIndex[r] = i
+	}
+	for _, prefs := range c37Prefs {
+		rank := func(refine bool) []int {
+			idx := make([]int, len(c37Addrs))
+			for i := range idx {
+				idx[i] = i
+			}
+			sort.SliceStable(idx, func(i, j int) bool { return c37Less(c37Addrs[idx[i]], c37Addrs[idx[j]], prefs, refine) })
+			r := make([]int, len(idx))
+			for pos, i := range idx {
+				r[i] = pos
+			}
+			return r
+		}
+		c37RankStrong = append(c37RankStrong, rank(true))
+		c37RankPlain = append(c37RankPlain, rank(false))
+		cl := make([]int, len(c37Addrs))
+		for i, a := range c37Addrs {
+			cl[i] = c37Class(a.Addr(), prefs)
+		}
+		c37ClassOf = append(c37ClassOf, cl)
+	}
+}
+
+// ---- reference model (addresses are alphabet indices) ----
 
 type c37Owner struct {
-	learned4, learned6 *netip.AddrPort
-	rep4, rep6         []netip.AddrPort
-	relays             []netip.Addr
+	learned4, learned6 int // -1 = none
+	rep4, rep6         []int
+	relays             []int
 }
 
 type c37Model struct {
 	owners      [3]c37Owner
-	dns         []netip.AddrPort
+	dns         []int
 	dnsAttached bool
-	blocked     []netip.AddrPort
+	blocked     uint
 	// diagnosis of the "cleared but not rebuilt" situation
 	clearedBy  string
-	clearedSet []netip.AddrPort
+	clearedSet uint
 }
 
-func (m *c37Model) dirty() { m.clearedBy, m.clearedSet = "", nil }
+func c37NewModel() *c37Model {
+	m := &c37Model{}
+	for i := range m.owners {
+		m.owners[i].learned4, m.owners[i].learned6 = -1, -1
+	}
+	return m
+}
 
-func (m *c37Model) sources() []netip.AddrPort {
-	var out []netip.AddrPort
+func (m *c37Model) dirty() { m.clearedBy, m.clearedSet = "", 0 }
+
+// expected: the set of all sources minus blocked, as a bit mask; whether a duplicate / a blocked source occurred.
+func (m *c37Model) expected() (mask uint, hadDup, hadBlocked bool) {
+	add := func(i int) {
+		if i < 0 {
+			return
+		}
+		b := uint(1) << i
+		if m.blocked&b != 0 {
+			hadBlocked = true
+			return
+		}
+		if mask&b != 0 {
+			hadDup = true
+		}
+		mask |= b
+	}
 	for i := range m.owners {
 		o := &m.owners[i]
-		if o.learned4 != nil {
-			out = append(out, *o.learned4)
+		add(o.learned4)
+		add(o.learned6)
+		for _, x := range o.rep4 {
+			add(x)
 		}
-		out = append(out, o.rep4...)
-		if o.learned6 != nil {
-			out = append(out, *o.learned6)
+		for _, x := range o.rep6 {
+			add(x)
 		}
-		out = append(out, o.rep6...)
 	}
 	if m.dnsAttached {
-		out = append(out, m.dns...)
-	}
-	return out
-}
-
-func c37Has(xs []netip.AddrPort, x netip.AddrPort) bool {
-	for _, y := range xs {
-		if y == x {
-			return true
+		for _, x := range m.dns {
+			add(x)
 		}
-	}
-	return false
-}
-
-func (m *c37Model) expectedSet() (set []netip.AddrPort, hadDup, hadBlocked bool) {
-	for _, s := range m.sources() {
-		if c37Has(m.blocked, s) {
-			hadBlocked = true
-			continue
-		}
-		if c37Has(set, s) {
-			hadDup = true
-			continue
-		}
-		set = append(set, s)
 	}
 	return
 }
 
-func (m *c37Model) expectedRelays() []netip.Addr {
-	var out []netip.Addr
+func (m *c37Model) expectedRelays() (mask uint, hadDup bool) {
 	for i := range m.owners {
 		for _, r := range m.owners[i].relays {
-			dup := false
-			for _, x := range out {
-				if x == r {
-					dup = true
-				}
+			if mask&(1<<r) != 0 {
+				hadDup = true
 			}
-			if !dup {
-				out = append(out, r)
-			}
+			mask |= 1 << r
 		}
 	}
-	return out
+	return
+}
+
+func c37MaskStr(mask uint) string {
+	var s []string
+	for i, a := range c37Addrs {
+		if mask&(1<<i) != 0 {
+			s = append(s, a.String())
+		}
+	}
+	return strings.Join(s, " ")
 }
 
 // ---- judge ----
 
 type c37Stats struct {
 	evals, nonEmpty, dedup, blockedRemoved, multiClass, samePortVariants, relayEvals, relayDedup atomic.Int64
+	hard, stale atomic.Int64 // violations other than / of the 'cleared but not rebuilt' kind
 	classSeen                                                                                    [4]atomic.Int64
 	mu                                                                                           sync.Mutex
-	orders                                                                                       map[string]string
+	orders                                                                                       map[[2]uint]string // (pref, set mask) -> order seen
 	distinctOutputs                                                                              map[string]struct{}
 }
 
@@ -230,78 +275,86 @@ func c37Str(xs []netip.AddrPort) string {
 	return strings.Join(s, " ")
 }
 
+func (st *c37Stats) viol(c *mc.Check, sig string, detail any) {
+	st.hard.Add(1)
+	c.Violation(sig, detail)
+}
+
+// violStale reports the finding whose states would otherwise flood the run: it does not count towards the give-up limit.
+func (st *c37Stats) violStale(c *mc.Check, sig string, detail any) {
+	st.stale.Add(1)
+	c.Violation(sig, detail)
+}
+
 func c37Judge(c *mc.Check, st *c37Stats, m *c37Model, pi int, got []netip.AddrPort, ctx func() map[string]any) {
-	prefs := c37Prefs[pi]
 	st.evals.Add(1)
-	want, hadDup, hadBlocked := m.expectedSet()
+	want, hadDup, hadBlocked := m.expected()
 	detail := func(extra map[string]any) map[string]any {
 		d := ctx()
-		d["preferred_ranges"] = fmt.Sprint(prefs)
+		d["preferred_ranges"] = fmt.Sprint(c37Prefs[pi])
 		d["got"] = c37Str(got)
-		d["expected_set"] = c37Str(want)
+		d["expected_set"] = c37MaskStr(want)
 		for k, v := range extra {
 			d[k] = v
 		}
 		return d
 	}
-	// set comparison
-	var missing, extra []netip.AddrPort
-	dup := false
-	for i, g := range got {
-		if c37Has(got[:i], g) {
-			dup = true
+	var gotMask uint
+	var code [16]byte
+	n := 0
+	for _, g := range got {
+		i, ok := c37Index[g]
+		if !ok {
+			st.viol(c, "candidate address list contains an address no source holds", detail(map[string]any{"extra": g.String()}))
+			return
 		}
-		if !c37Has(want, g) {
-			extra = append(extra, g)
+		if gotMask&(1<<i) != 0 {
+			st.viol(c, "candidate address list contains the same address:port twice", detail(nil))
+			return
+		}
+		gotMask |= 1 << i
+		if n < len(code) {
+			code[n] = byte('0' + i)
+			n++
 		}
 	}
-	for _, w := range want {
-		if !c37Has(got, w) {
-			missing = append(missing, w)
-		}
-	}
-	switch {
-	case dup:
-		c.Violation("candidate address list contains the same address:port twice", detail(nil))
-		return
-	case len(extra) > 0:
+	if extra := gotMask &^ want; extra != 0 {
 		kind := "an address no source holds"
-		if c37Has(m.blocked, extra[0]) {
+		if m.blocked&extra != 0 {
 			kind = "a blocked address"
-		} else if c37Has(m.clearedSet, extra[0]) {
-			kind = "an address that is no longer blocked nor offered"
 		}
-		c.Violation("candidate address list contains "+kind, detail(map[string]any{"extra": c37Str(extra)}))
+		st.viol(c, "candidate address list contains "+kind, detail(map[string]any{"extra": c37MaskStr(extra)}))
 		return
-	case len(missing) > 0:
-		allCleared := m.clearedBy != ""
-		for _, x := range missing {
-			if !c37Has(m.clearedSet, x) {
-				allCleared = false
-			}
-		}
-		if allCleared {
-			c.Violation("candidate address list still omits a remote after the blocked list was cleared by "+m.clearedBy+" (list not marked for rebuild)", detail(map[string]any{"missing": c37Str(missing)}))
+	}
+	if missing := want &^ gotMask; missing != 0 {
+		if m.clearedBy != "" && missing&^m.clearedSet == 0 {
+			st.violStale(c, "candidate address list still omits a remote after the blocked list was cleared by "+m.clearedBy+" (list not marked for rebuild)", detail(map[string]any{"missing": c37MaskStr(missing)}))
 		} else {
-			c.Violation("candidate address list omits an address that a source holds and nobody blocked", detail(map[string]any{"missing": c37Str(missing)}))
+			st.viol(c, "candidate address list omits an address that a source holds and nobody blocked", detail(map[string]any{"missing": c37MaskStr(missing)}))
 		}
 		return
 	}
-	// order
-	strong := append([]netip.AddrPort{}, want...)
-	sort.SliceStable(strong, func(i, j int) bool { return c37Less(strong[i], strong[j], prefs, true) })
-	plain := append([]netip.AddrPort{}, want...)
-	sort.SliceStable(plain, func(i, j int) bool { return c37Less(plain[i], plain[j], prefs, false) })
-	if c37Str(got) != c37Str(strong) && c37Str(got) != c37Str(plain) {
+	// order: ascending in the stated key (either reading of the preferred group)
+	okStrong, okPlain := true, true
+	for k := 0; k+1 < n; k++ {
+		a, b := int(code[k]-'0'), int(code[k+1]-'0')
+		if c37RankStrong[pi][a] > c37RankStrong[pi][b] {
+			okStrong = false
+		}
+		if c37RankPlain[pi][a] > c37RankPlain[pi][b] {
+			okPlain = false
+		}
+	}
+	if !okStrong && !okPlain {
 		why := "order differs"
-		for i := 0; i+1 < len(got); i++ {
-			a, b := got[i], got[i+1]
-			if c37Less(b, a, prefs, true) && c37Less(b, a, prefs, false) {
-				ca, cb := c37Class(a.Addr(), prefs), c37Class(b.Addr(), prefs)
+		for k := 0; k+1 < n; k++ {
+			a, b := int(code[k]-'0'), int(code[k+1]-'0')
+			if c37RankStrong[pi][a] > c37RankStrong[pi][b] && c37RankPlain[pi][a] > c37RankPlain[pi][b] {
+				ca, cb := c37ClassOf[pi][a], c37ClassOf[pi][b]
 				switch {
 				case ca != cb:
 					why = c37ClassName[ca] + " listed before " + c37ClassName[cb]
-				case a.Addr() == b.Addr():
+				case c37Addrs[a].Addr() == c37Addrs[b].Addr():
 					why = "same address: higher port listed first"
 				default:
 					why = "addresses of one class (" + c37ClassName[ca] + ") not ascending by address"
@@ -309,25 +362,24 @@ func c37Judge(c *mc.Check, st *c37Stats, m *c37Model, pi int, got []netip.AddrPo
 				break
 			}
 		}
-		c.Violation("candidate address list out of order: "+why, detail(map[string]any{"expected_order": c37Str(strong)}))
+		st.viol(c, "candidate address list out of order: "+why, detail(nil))
 		return
 	}
 	// determinism: same set + same ranges => same list, whatever the history
-	key := fmt.Sprintf("%d|%s", pi, c37Str(plain))
-	g := c37Str(got)
+	g := string(code[:n])
 	st.mu.Lock()
-	prev, ok := st.orders[key]
-	if !ok {
-		st.orders[key] = g
+	prev, seen := st.orders[[2]uint{uint(pi), want}]
+	if !seen {
+		st.orders[[2]uint{uint(pi), want}] = g
+		st.distinctOutputs[g] = struct{}{}
 	}
-	st.distinctOutputs[g] = struct{}{}
 	st.mu.Unlock()
-	if ok && prev != g {
-		c.Violation("the same address set and preferred ranges give two different orders", detail(map[string]any{"other_order": prev}))
+	if seen && prev != g {
+		st.viol(c, "the same address set and preferred ranges give two different orders", detail(map[string]any{"other_order_by_alphabet_index": prev}))
 		return
 	}
 	// coverage
-	if len(got) > 0 {
+	if n > 0 {
 		st.nonEmpty.Add(1)
 	}
 	if hadDup {
@@ -336,59 +388,59 @@ func c37Judge(c *mc.Check, st *c37Stats, m *c37Model, pi int, got []netip.AddrPo
 	if hadBlocked {
 		st.blockedRemoved.Add(1)
 	}
-	classes := map[int]bool{}
-	for i, x := range got {
-		cl := c37Class(x.Addr(), prefs)
-		classes[cl] = true
-		if i > 0 && got[i-1].Addr() == x.Addr() {
+	var classes uint
+	for k := 0; k < n; k++ {
+		i := int(code[k] - '0')
+		classes |= 1 << c37ClassOf[pi][i]
+		if k > 0 && c37Addrs[int(code[k-1]-'0')].Addr() == c37Addrs[i].Addr() {
 			st.samePortVariants.Add(1)
 		}
 	}
-	for cl := range classes {
-		st.classSeen[cl].Add(1)
+	nc := 0
+	for cl := 0; cl < 4; cl++ {
+		if classes&(1<<cl) != 0 {
+			nc++
+			st.classSeen[cl].Add(1)
+		}
 	}
-	if len(classes) >= 3 {
+	if nc >= 3 {
 		st.multiClass.Add(1)
 	}
 }
 
 func c37JudgeRelays(c *mc.Check, st *c37Stats, m *c37Model, got []netip.Addr, ctx func() map[string]any) {
 	st.relayEvals.Add(1)
-	want := m.expectedRelays()
-	total := 0
-	for i := range m.owners {
-		total += len(m.owners[i].relays)
-	}
-	if total > len(want) {
+	want, hadDup := m.expectedRelays()
+	if hadDup {
 		st.relayDedup.Add(1)
 	}
-	gs := fmt.Sprint(got)
 	detail := func() map[string]any {
 		d := ctx()
-		d["got_relays"] = gs
-		d["reported_relays_dedup"] = fmt.Sprint(want)
-		return d
-	}
-	seen := map[netip.Addr]bool{}
-	for _, g := range got {
-		if seen[g] {
-			c.Violation("relay candidates contain the same relay twice", detail())
-			return
-		}
-		seen[g] = true
-		found := false
-		for _, w := range want {
-			if w == g {
-				found = true
+		d["got_relays"] = fmt.Sprint(got)
+		var ws []string
+		for i, r := range c37Relays {
+			if want&(1<<i) != 0 {
+				ws = append(ws, r.String())
 			}
 		}
-		if !found {
-			c.Violation("relay candidates contain a relay nobody reports (any more)", detail())
+		d["reported_relays_dedup"] = strings.Join(ws, " ")
+		return d
+	}
+	var gotMask uint
+	for _, g := range got {
+		i, ok := c37RelayIndex[g]
+		if !ok || want&(1<<i) == 0 {
+			st.viol(c, "relay candidates contain a relay nobody reports (any more)", detail())
 			return
 		}
+		if gotMask&(1<<i) != 0 {
+			st.viol(c, "relay candidates contain the same relay twice", detail())
+			return
+		}
+		gotMask |= 1 << i
 	}
-	if len(got) != len(want) {
-		c.Violation("relay candidates omit a reported relay", detail())
+	if gotMask != want {
+		st.viol(c, "relay candidates omit a reported relay", detail())
 		return
 	}
 	// sorted: ascending by address bytes within a family; either family may come first (the statement does not say)
@@ -408,7 +460,7 @@ func c37JudgeRelays(c *mc.Check, st *c37Stats, m *c37Model, got []netip.Addr, ct
 		return true
 	}
 	if !asc(true) && !asc(false) {
-		c.Violation("relay candidates are not sorted", detail())
+		st.viol(c, "relay candidates are not sorted", detail())
 	}
 }
 
@@ -421,7 +473,7 @@ type c37World struct {
 }
 
 func c37NewWorld() *c37World {
-	w := &c37World{r: NewRemoteList([]netip.Addr{c37Self}, nil), m: &c37Model{}}
+	w := &c37World{r: NewRemoteList([]netip.Addr{c37Self}, nil), m: c37NewModel()}
 	// a static host: resolver results attached, nothing resolved yet (what addStaticRemotes does for host names)
 	w.hr = &hostnamesResults{}
 	empty := map[netip.AddrPort]struct{}{}
@@ -436,66 +488,71 @@ func c37NewWorld() *c37World {
 func c37True4(netip.Addr, *V4AddrPort) bool { return true }
 func c37True6(netip.Addr, *V6AddrPort) bool { return true }
 
-func (w *c37World) setV4(o int, xs []netip.AddrPort) {
-	var to []*V4AddrPort
-	for _, x := range xs {
-		to = append(to, netAddrToProtoV4AddrPort(x.Addr(), x.Port()))
+func (w *c37World) setV4(o int, xs []int) {
+	to := make([]*V4AddrPort, 0, len(xs))
+	for _, i := range xs {
+		to = append(to, netAddrToProtoV4AddrPort(c37Addrs[i].Addr(), c37Addrs[i].Port()))
 	}
 	w.r.Lock()
 	w.r.unlockedSetV4(c37Owners[o], c37Self, to, c37True4)
 	w.r.Unlock()
-	w.m.owners[o].rep4 = append([]netip.AddrPort{}, xs...)
+	w.m.owners[o].rep4 = xs
 	w.m.dirty()
 }
 
-func (w *c37World) setV6(o int, xs []netip.AddrPort) {
-	var to []*V6AddrPort
-	for _, x := range xs {
-		to = append(to, netAddrToProtoV6AddrPort(x.Addr(), x.Port()))
+func (w *c37World) setV6(o int, xs []int) {
+	to := make([]*V6AddrPort, 0, len(xs))
+	for _, i := range xs {
+		to = append(to, netAddrToProtoV6AddrPort(c37Addrs[i].Addr(), c37Addrs[i].Port()))
 	}
 	w.r.Lock()
 	w.r.unlockedSetV6(c37Owners[o], c37Self, to, c37True6)
 	w.r.Unlock()
-	w.m.owners[o].rep6 = append([]netip.AddrPort{}, xs...)
+	w.m.owners[o].rep6 = xs
 	w.m.dirty()
 }
 
-func (w *c37World) setRelay(o int, xs []netip.Addr) {
+func (w *c37World) setRelay(o int, xs []int) {
+	to := make([]netip.Addr, 0, len(xs))
+	for _, i := range xs {
+		to = append(to, c37Relays[i])
+	}
 	w.r.Lock()
-	w.r.unlockedSetRelay(c37Owners[o], append([]netip.Addr{}, xs...))
+	w.r.unlockedSetRelay(c37Owners[o], to)
 	w.r.Unlock()
-	w.m.owners[o].relays = append([]netip.Addr{}, xs...)
+	w.m.owners[o].relays = xs
 	w.m.dirty()
 }
 
-func (w *c37World) learn(o int, x netip.AddrPort) {
+func (w *c37World) learn(o int, i int) {
+	x := c37Addrs[i]
 	w.r.LearnRemote(c37Owners[o], x)
-	v := x
-	if x.Addr().Is4() {
-		w.m.owners[o].learned4 = &v
+	if len(c37Bytes(x.Addr())) == 4 {
+		w.m.owners[o].learned4 = i
 	} else {
-		w.m.owners[o].learned6 = &v
+		w.m.owners[o].learned6 = i
 	}
 	w.m.dirty()
 }
 
-func (w *c37World) prepend(o int, x netip.AddrPort) {
+func (w *c37World) prepend(o int, i int) {
+	x := c37Addrs[i]
 	w.r.Lock()
-	if x.Addr().Is4() {
+	if len(c37Bytes(x.Addr())) == 4 {
 		w.r.unlockedPrependV4(c37Owners[o], netAddrToProtoV4AddrPort(x.Addr(), x.Port()))
-		w.m.owners[o].rep4 = append([]netip.AddrPort{x}, w.m.owners[o].rep4...)
+		w.m.owners[o].rep4 = append([]int{i}, w.m.owners[o].rep4...)
 	} else {
 		w.r.unlockedPrependV6(c37Owners[o], netAddrToProtoV6AddrPort(x.Addr(), x.Port()))
-		w.m.owners[o].rep6 = append([]netip.AddrPort{x}, w.m.owners[o].rep6...)
+		w.m.owners[o].rep6 = append([]int{i}, w.m.owners[o].rep6...)
 	}
 	w.r.Unlock()
 	w.m.dirty()
 }
 
-func (w *c37World) block(x netip.AddrPort, relayed bool) {
-	w.r.BlockRemote(ViaSender{UdpAddr: x, IsRelayed: relayed})
-	if !relayed && !c37Has(w.m.blocked, x) {
-		w.m.blocked = append(w.m.blocked, x)
+func (w *c37World) block(i int, relayed bool) {
+	w.r.BlockRemote(ViaSender{UdpAddr: c37Addrs[i], IsRelayed: relayed})
+	if !relayed && w.m.blocked&(1<<i) == 0 {
+		w.m.blocked |= 1 << i
 		w.m.dirty()
 	}
 }
@@ -508,26 +565,26 @@ func (w *c37World) unblock(viaHandshake bool) {
 	} else {
 		w.r.ResetBlockedRemotes()
 	}
-	if len(w.m.blocked) > 0 {
+	if w.m.blocked != 0 {
 		if w.m.clearedBy == "" {
 			w.m.clearedBy = by
 		}
-		w.m.clearedSet = append(w.m.clearedSet, w.m.blocked...)
+		w.m.clearedSet |= w.m.blocked
 	}
-	w.m.blocked = nil
+	w.m.blocked = 0
 }
 
-func (w *c37World) dnsUpdate(xs []netip.AddrPort) {
+func (w *c37World) dnsUpdate(xs []int) {
 	// the resolver goroutine's effect: store the new set, then the onUpdate callback installed by addStaticRemotes
-	set := map[netip.AddrPort]struct{}{}
-	for _, x := range xs {
-		set[x] = struct{}{}
+	set := make(map[netip.AddrPort]struct{}, len(xs))
+	for _, i := range xs {
+		set[c37Addrs[i]] = struct{}{}
 	}
 	w.hr.ips.Store(&set)
 	w.r.Lock()
 	w.r.shouldRebuild = true
 	w.r.Unlock()
-	w.m.dns = append([]netip.AddrPort{}, xs...)
+	w.m.dns = xs
 	w.m.dirty()
 }
 
@@ -544,10 +601,18 @@ func (w *c37World) resetOwner(o int) {
 	w.m.dirty()
 }
 
-// key: everything that can influence later outputs, read from the private fields in a fixed order.
+// key: everything that can influence later outputs, read from the private fields in a fixed order
+// (addresses written as alphabet indices; '?' for anything outside the alphabet).
 func (w *c37World) key() string {
 	var sb strings.Builder
 	r := w.r
+	ap := func(x netip.AddrPort) {
+		if i, ok := c37Index[x]; ok {
+			sb.WriteByte(byte('0' + i))
+		} else {
+			sb.WriteString("?" + x.String())
+		}
+	}
 	for _, o := range c37Owners {
 		ch := r.cache[o]
 		if ch == nil {
@@ -556,34 +621,58 @@ func (w *c37World) key() string {
 		}
 		if ch.v4 != nil {
 			if ch.v4.learned != nil {
-				fmt.Fprintf(&sb, "L%v", protoV4AddrPortToNetAddrPort(ch.v4.learned))
+				sb.WriteByte('L')
+				ap(protoV4AddrPortToNetAddrPort(ch.v4.learned))
 			}
+			sb.WriteByte('r')
 			for _, x := range ch.v4.reported {
-				fmt.Fprintf(&sb, "r%v", protoV4AddrPortToNetAddrPort(x))
+				ap(protoV4AddrPortToNetAddrPort(x))
 			}
 		}
 		sb.WriteByte('/')
 		if ch.v6 != nil {
 			if ch.v6.learned != nil {
-				fmt.Fprintf(&sb, "L%v", protoV6AddrPortToNetAddrPort(ch.v6.learned))
+				sb.WriteByte('L')
+				ap(protoV6AddrPortToNetAddrPort(ch.v6.learned))
 			}
+			sb.WriteByte('r')
 			for _, x := range ch.v6.reported {
-				fmt.Fprintf(&sb, "r%v", protoV6AddrPortToNetAddrPort(x))
+				ap(protoV6AddrPortToNetAddrPort(x))
 			}
 		}
 		sb.WriteByte('/')
 		if ch.relay != nil {
-			fmt.Fprint(&sb, ch.relay.relay)
+			for _, x := range ch.relay.relay {
+				sb.WriteByte(byte('a' + c37RelayIndex[x]))
+			}
 		}
 		sb.WriteByte('|')
 	}
-	fmt.Fprintf(&sb, "bad=%v|dirty=%v|addrs=%v|relays=%v|hr=%v", r.badRemotes, r.shouldRebuild, r.addrs, r.relays, r.hr != nil)
-	if r.hr != nil {
-		d := r.hr.GetAddrs()
-		sort.Slice(d, func(i, j int) bool { return d[i].String() < d[j].String() })
-		fmt.Fprint(&sb, d)
+	sb.WriteString("bad=")
+	for _, x := range r.badRemotes {
+		ap(x)
 	}
-	fmt.Fprintf(&sb, "|cleared=%s%v", w.m.clearedBy, w.m.clearedSet)
+	if r.shouldRebuild {
+		sb.WriteString("|dirty")
+	}
+	sb.WriteString("|addrs=")
+	for _, x := range r.addrs {
+		ap(x)
+	}
+	sb.WriteString("|relays=")
+	for _, x := range r.relays {
+		sb.WriteByte(byte('a' + c37RelayIndex[x]))
+	}
+	if r.hr != nil {
+		var mask uint
+		for _, x := range r.hr.GetAddrs() {
+			if i, ok := c37Index[x]; ok {
+				mask |= 1 << i
+			}
+		}
+		fmt.Fprintf(&sb, "|hr=%x", mask)
+	}
+	fmt.Fprintf(&sb, "|cleared=%s%x", w.m.clearedBy, w.m.clearedSet)
 	return sb.String()
 }
 
@@ -592,23 +681,34 @@ func (w *c37World) key() string {
 type c37Ev struct {
 	Op   string
 	O    int
-	A    []netip.AddrPort
-	R    []netip.Addr
+	A    []int // address (or relay) alphabet indices
 	Pref int
+}
+
+func c37Names(xs []int, relay bool) string {
+	s := make([]string, len(xs))
+	for i, x := range xs {
+		if relay {
+			s[i] = c37Relays[x].String()
+		} else {
+			s[i] = c37Addrs[x].String()
+		}
+	}
+	return "[" + strings.Join(s, " ") + "]"
 }
 
 func c37Label(e c37Ev) string {
 	switch e.Op {
 	case "learn", "prepend":
-		return fmt.Sprintf("%s(owner%d,%v)", e.Op, e.O+1, e.A[0])
+		return fmt.Sprintf("%s(owner%d,%v)", e.Op, e.O+1, c37Addrs[e.A[0]])
 	case "setV4", "setV6":
-		return fmt.Sprintf("%s(owner%d,%v)", e.Op, e.O+1, e.A)
+		return fmt.Sprintf("%s(owner%d,%s)", e.Op, e.O+1, c37Names(e.A, false))
 	case "setRelay":
-		return fmt.Sprintf("setRelay(owner%d,%v)", e.O+1, e.R)
+		return fmt.Sprintf("setRelay(owner%d,%s)", e.O+1, c37Names(e.A, true))
 	case "block", "blockRelayed":
-		return fmt.Sprintf("%s(%v)", e.Op, e.A[0])
+		return fmt.Sprintf("%s(%v)", e.Op, c37Addrs[e.A[0]])
 	case "dns":
-		return fmt.Sprintf("dnsUpdate(%v)", e.A)
+		return fmt.Sprintf("dnsUpdate(%s)", c37Names(e.A, false))
 	case "resetOwner":
 		return fmt.Sprintf("ResetForOwner(owner%d)", e.O+1)
 	case "copy":
@@ -618,14 +718,13 @@ func c37Label(e c37Ev) string {
 }
 
 func c37Menu(nOwners int) []c37Ev {
-	A := c37Addrs
 	var m []c37Ev
-	v4lists := [][]netip.AddrPort{{}, {A[0]}, {A[3], A[4]}, {A[0], A[0], A[2]}, {A[4], A[1], A[2], A[3]}}
-	v6lists := [][]netip.AddrPort{{}, {A[5]}, {A[6], A[7], A[6]}, {A[7], A[5]}}
-	rlists := [][]netip.Addr{{}, {c37Relays[0]}, {c37Relays[1], c37Relays[0]}, {c37Relays[0], c37Relays[0], c37Relays[2]}}
+	v4lists := [][]int{{}, {0}, {3, 4}, {0, 0, 2}, {4, 1, 2, 3}}
+	v6lists := [][]int{{}, {5}, {6, 7, 6}, {7, 5}}
+	rlists := [][]int{{}, {0}, {1, 0}, {0, 0, 2}}
 	for o := 0; o < nOwners; o++ {
-		for _, a := range A {
-			m = append(m, c37Ev{Op: "learn", O: o, A: []netip.AddrPort{a}})
+		for a := range c37Addrs {
+			m = append(m, c37Ev{Op: "learn", O: o, A: []int{a}})
 		}
 		for _, l := range v4lists {
 			m = append(m, c37Ev{Op: "setV4", O: o, A: l})
@@ -634,19 +733,19 @@ func c37Menu(nOwners int) []c37Ev {
 			m = append(m, c37Ev{Op: "setV6", O: o, A: l})
 		}
 		for _, l := range rlists {
-			m = append(m, c37Ev{Op: "setRelay", O: o, R: l})
+			m = append(m, c37Ev{Op: "setRelay", O: o, A: l})
 		}
 		m = append(m, c37Ev{Op: "resetOwner", O: o})
 	}
-	for _, a := range []netip.AddrPort{A[0], A[3], A[5]} {
-		m = append(m, c37Ev{Op: "prepend", O: 0, A: []netip.AddrPort{a}})
+	for _, a := range []int{0, 3, 5} {
+		m = append(m, c37Ev{Op: "prepend", O: 0, A: []int{a}})
 	}
-	for _, a := range A {
-		m = append(m, c37Ev{Op: "block", A: []netip.AddrPort{a}})
+	for a := range c37Addrs {
+		m = append(m, c37Ev{Op: "block", A: []int{a}})
 	}
-	m = append(m, c37Ev{Op: "blockRelayed", A: []netip.AddrPort{A[3]}})
+	m = append(m, c37Ev{Op: "blockRelayed", A: []int{3}})
 	m = append(m, c37Ev{Op: "ResetBlockedRemotes"}, c37Ev{Op: "RefreshFromHandshake"})
-	for _, l := range [][]netip.AddrPort{{}, {A[3]}, {A[0], A[6]}, {A[4], A[3], A[7]}} {
+	for _, l := range [][]int{{}, {3}, {0, 6}, {4, 3, 7}} {
 		m = append(m, c37Ev{Op: "dns", A: l})
 	}
 	m = append(m, c37Ev{Op: "ClearHostnameResults"})
@@ -667,7 +766,7 @@ func (w *c37World) apply(c *mc.Check, st *c37Stats, e c37Ev, ctx func() map[stri
 	case "setV6":
 		w.setV6(e.O, e.A)
 	case "setRelay":
-		w.setRelay(e.O, e.R)
+		w.setRelay(e.O, e.A)
 	case "block":
 		w.block(e.A[0], false)
 	case "blockRelayed":
@@ -694,10 +793,10 @@ func (w *c37World) apply(c *mc.Check, st *c37Stats, e c37Ev, ctx func() map[stri
 func TestVerifC37(t *testing.T) {
 	c := mc.Begin(t, "C37", "model_checking")
 	defer c.End()
-	st := &c37Stats{orders: map[string]string{}, distinctOutputs: map[string]struct{}{}}
+	st := &c37Stats{orders: map[[2]uint]string{}, distinctOutputs: map[string]struct{}{}}
 
 	// ---------- (2) histories ----------
-	nOwners := mc.Pick(c, 2, 3)
+	nOwners := 2
 	menu := c37Menu(nOwners)
 	depth := mc.Pick(c, 3, 4)
 	c.Set("history_menu_size", len(menu))
@@ -706,15 +805,14 @@ func TestVerifC37(t *testing.T) {
 	var opSeen sync.Map
 	// Two start states: the empty list, and a populated one (so that block / rebuild / unblock sequences on addresses that
 	// are really present fit inside the depth bound). The seed is itself a history replayed on the fresh list.
-	A := c37Addrs
 	seeds := map[string][]c37Ev{
 		"empty": nil,
 		"populated": {
-			{Op: "setV4", O: 0, A: []netip.AddrPort{A[4], A[1], A[2], A[3]}},
-			{Op: "setV6", O: 0, A: []netip.AddrPort{A[6], A[7], A[6]}},
-			{Op: "learn", O: 1, A: []netip.AddrPort{A[0]}},
-			{Op: "dns", A: []netip.AddrPort{A[0], A[5]}},
-			{Op: "setRelay", O: 1, R: []netip.Addr{c37Relays[1], c37Relays[0]}},
+			{Op: "setV4", O: 0, A: []int{4, 1, 2, 3}},
+			{Op: "setV6", O: 0, A: []int{6, 7, 6}},
+			{Op: "learn", O: 1, A: []int{0}},
+			{Op: "dns", A: []int{0, 5}},
+			{Op: "setRelay", O: 1, A: []int{1, 0}},
 		},
 	}
 	perSeed := map[string]any{}
@@ -723,7 +821,7 @@ func TestVerifC37(t *testing.T) {
 		res := mc.BFSReplay(c, mc.BFSConfig[c37Ev]{
 			MaxDepth: depth,
 			Label:    c37Label,
-			Stop:     func() bool { return c.OutOfTime() || c.Violations() > 500 },
+			Stop:     func() bool { return c.OutOfTime() || st.hard.Load() > 500 },
 			Run: func(hist []c37Ev) (string, []c37Ev) {
 				w := c37NewWorld()
 				labels := make([]string, 0, len(seed)+len(hist)+1)
@@ -769,7 +867,7 @@ func TestVerifC37(t *testing.T) {
 		total *= nChoices
 	}
 	var popEvals atomic.Int64
-	mc.ParallelItems(total, 0, func() bool { return c.OutOfTime() || c.Violations() > 500 }, func(idx int, _ *mc.Enum) {
+	mc.ParallelItems(total, 0, func() bool { return c.OutOfTime() || st.hard.Load() > 500 }, func(idx int, _ *mc.Enum) {
 		choice := make([]int, len(c37Addrs))
 		x := idx
 		for i := range choice {
@@ -779,11 +877,11 @@ func TestVerifC37(t *testing.T) {
 		for bi, bs := range blockedSets {
 			for li, ls := range learnedSets {
 				w := c37NewWorld()
-				var o1v4, o1v6, o2v4, o2v6, dns []netip.AddrPort
+				var o1v4, o1v6, o2v4, o2v6, dns []int
 				for i, ch := range choice {
-					a := c37Addrs[i]
-					add := func(l4, l6 *[]netip.AddrPort) {
-						if a.Addr().Is4() {
+					a := i
+					add := func(l4, l6 *[]int) {
+						if len(c37Bytes(c37Addrs[i].Addr())) == 4 {
 							*l4 = append(*l4, a)
 						} else {
 							*l6 = append(*l6, a)
@@ -812,13 +910,13 @@ func TestVerifC37(t *testing.T) {
 				w.setV6(1, o2v6)
 				w.dnsUpdate(dns)
 				for _, l := range ls {
-					w.learn(2, c37Addrs[l])
+					w.learn(2, l)
 				}
 				for _, b := range bs {
-					w.block(c37Addrs[b], false)
+					w.block(b, false)
 				}
 				ctx := func() map[string]any {
-					return map[string]any{"population": map[string]any{"owner1_v4": c37Str(o1v4), "owner1_v6": c37Str(o1v6), "owner2_v4": c37Str(o2v4), "owner2_v6": c37Str(o2v6), "dns": c37Str(dns), "owner3_learned": fmt.Sprint(ls), "blocked": fmt.Sprint(bs)}}
+					return map[string]any{"population": map[string]any{"owner1_v4": c37Names(o1v4, false), "owner1_v6": c37Names(o1v6, false), "owner2_v4": c37Names(o2v4, false), "owner2_v6": c37Names(o2v6, false), "dns": c37Names(dns, false), "owner3_learned": fmt.Sprint(ls), "blocked": fmt.Sprint(bs)}}
 				}
 				for i := range c37Prefs {
 					p := (i + bi + li) % len(c37Prefs)
@@ -833,7 +931,7 @@ func TestVerifC37(t *testing.T) {
 		c.Capped("time budget during populations")
 	}
 	// relay populations: every assignment of 3 relay lists (from 6) to 3 owners
-	rl := [][]netip.Addr{{}, {c37Relays[0]}, {c37Relays[1], c37Relays[0]}, {c37Relays[0], c37Relays[0], c37Relays[2]}, {c37Relays[2], c37Relays[1]}, {c37Relays[2], c37Relays[0], c37Relays[1], c37Relays[2]}}
+	rl := [][]int{{}, {0}, {1, 0}, {0, 0, 2}, {2, 1}, {2, 0, 1, 2}}
 	for a := range rl {
 		for b := range rl {
 			for d := range rl {
@@ -843,13 +941,13 @@ func TestVerifC37(t *testing.T) {
 				w.setRelay(2, rl[d])
 				w.r.Rebuild(nil)
 				c37JudgeRelays(c, st, w.m, append([]netip.Addr{}, w.r.relays...), func() map[string]any {
-					return map[string]any{"relay_reports": fmt.Sprint(rl[a], rl[b], rl[d])}
+					return map[string]any{"relay_reports": c37Names(rl[a], true) + c37Names(rl[b], true) + c37Names(rl[d], true)}
 				})
 			}
 		}
 	}
 
-	if c.Violations() == 0 && !c.OutOfTime() {
+	if st.hard.Load() == 0 && !c.OutOfTime() {
 		for i := range st.classSeen {
 			c.Require(st.classSeen[i].Load() > 0, "class %q never appeared in an output", c37ClassName[i])
 		}
@@ -867,6 +965,7 @@ func TestVerifC37(t *testing.T) {
 	c.Set("populations_per_address_choices", nChoices)
 	c.Set("relay_evaluations", st.relayEvals.Load())
 	c.Set("distinct_outputs", len(st.distinctOutputs))
+	c.Set("evaluations_hitting_the_cleared_but_not_rebuilt_finding", st.stale.Load())
 	c.Set("outputs_needing_dedup", st.dedup.Load())
 	c.Set("outputs_with_blocked_source_removed", st.blockedRemoved.Load())
 	c.Set("outputs_with_three_or_more_classes", st.multiClass.Load())
